@@ -204,7 +204,10 @@ def find_in_scope(
             if strip_str == inc.path:
                 if inc.file is None:
                     return None
-                return Include(inc.file.ast, inc.line_number, inc.path)
+                # The line of the INCLUDE statement belongs to the including file;
+                # as a position in the included file it must stay inside that file
+                line_number = max(1, min(inc.line_number, inc.file.nLines))
+                return Include(inc.file.ast, line_number, inc.path)
 
     # Setup USE search
     use_dict = get_use_tree(scope, {}, obj_tree)
